@@ -116,18 +116,29 @@ def run_concern(pid: str, tier: str, seed: int, runs=None) -> dict:
         nprog += 1
         if ur.vr:
             solver_ms += ur.vr.smt_ms()
-        for (lab, ok, detail) in ((u.wire_checks() + u.c08_checks() + u.order_checks()) if hasattr(u, 'em') else []):
+        extra_checks = []
+        if pid == 'C08' and hasattr(u, 'em'):
+            # "members keep the namespace of the schema that declared them": the prefix an inherited member is written with must be
+            # DECLARED by the derived struct (or by the struct of the member's type) -- the declaration checks of C10, for derived types
+            derived = {M.pascal(k[1]) for k, ct in u.model.complex.items() if ct.base is not None}
+            try:
+                extra_checks = [(lab, ok, det) for (lab, ok, det) in ns_decl_checks(u.em, u.model)
+                                if lab.endswith('#prefix-declared') and lab.split('::')[-1].split('.')[0] in derived]
+            except Exception:
+                extra_checks = []
+        for (lab, ok, detail) in ((u.wire_checks() + u.c08_checks() + u.order_checks() + extra_checks) if hasattr(u, 'em') else []):
             ur.obligations.append(lab)
             if not ok:
                 msg_ = {'wire': 'element QName in the emitted yaserde attribute differs from the WSDL binding: ',
                         'ns:': 'namespace prefix in the emitted yaserde attribute differs from the declaring schema: ',
-                        'orde': 'members of the emitted struct are not in declaration order (base first, then own): '}.get(lab[:4] if lab[:3] != 'ns:' else 'ns:', '')
+                        'orde': 'members of the emitted struct are not in declaration order (base first, then own): ',
+                        'decl': 'the prefix an inherited member is written with is not declared by the derived struct: '}.get(lab[:4] if lab[:3] != 'ns:' else 'ns:', '')
                 wf_ = Failure(u.name, lab, msg_ + detail, [], detail, props=[pid])
                 ur.failures.append(wf_)
         for ob in ur.obligations:
             res['obligations'].append(f'{u.name}:{ob}')
         for f in ur.failures:
-            if f.obligation.startswith(('emitted::', 'shape:', 'sig:', 'index:', 'wire:', 'ns:', 'order:')):
+            if f.obligation.startswith(('emitted::', 'shape:', 'sig:', 'index:', 'wire:', 'ns:', 'order:', 'decl:')):
                 f.unit = u.name
                 f.props = [pid]
                 import re as _re
@@ -238,6 +249,22 @@ def ns_decl_checks(em, m) -> list:
                 else:
                     how = f'member type {core} is not a generated struct and {q} declares only {sorted(dd)}'
             res.append((f'decl:{q}.{fname}#prefix-declared', ok, f'prefix {fp}: {how}'))
+    # (5) every component of a target namespace (whichever file declared it) is emitted in that namespace's module
+    from ..l3 import model as M_
+    for kind, comps in (('complexType', m.complex), ('simpleType', m.simple), ('element', m.elements)):
+        for (ns, name) in comps:
+            if ns not in u2p:
+                continue
+            mods = sorted(mn for mn, u in mod_uri.items() if u == ns)
+            if len(mods) != 1:
+                continue            # reported by #one-module
+            mod = em.mods[mods[0]]
+            here = M_.pascal(name) in em.structs(mod) or M_.pascal(name) in em.aliases(mod)
+            # a global element typed by the component of the same name in the same namespace needs no alias of its own
+            if not here and kind == 'element' and ((ns, name) in m.complex or (ns, name) in m.simple):
+                here = True
+            res.append((f'decl:namespace:{ns}#{kind}-{name}-in-its-module', here,
+                        f'{kind} {name} of {ns} ' + ('is' if here else 'is NOT') + f' emitted in {mods[0]}'))
     # (4) the modules and prefixes agree with the schema set: one module per target namespace that has components
     for ns in m.namespaces:
         has = any(k[0] == ns for k in list(m.complex) + list(m.simple) + list(m.elements))
